@@ -41,6 +41,7 @@ UNIT = [1.0, 5.0, 1.0, 0.5]           # variant 1 crosses the year end, 2 the le
 ORDERS = {"abs-first": ["abs", "abs", "speed", "speed"], "speed-first": ["speed", "abs", "abs", "speed"]}
 
 OBLIGATIONS = {
+    "long_track": "a track of several hundred fixes (257, 258, 300, ...) cycling through the lattice",
     "repeated_timestamp_at_start": "t[0] == t[1]",
     "repeated_timestamp_at_end": "t[N-1] == t[N-2]",
     "zero_elapsed_time_interior": "an interior fix whose two neighbours share a timestamp",
@@ -63,6 +64,7 @@ def bounds(tier, variant):
             "extended_lattice": [list(alpha.xy(variant, *p)) for p in LATTICE + EXTRA] if T["sizes_extra_lattice"] else [],
             "extended_lattice_sizes": T["sizes_extra_lattice"],
             "timestamps": "every non-decreasing vector over t0 + %r * %gs" % (TIMES, UNIT[variant]),
+            "long_tracks": {"sizes": LONG_N[tier], "strides": LONG_STRIDE, "timestamp_patterns": LONG_TIMES},
             "first_timestamp": alpha.t0(variant), "orders": sorted(ORDERS), "z": "z[i] = (-1)^i * 1000 * (i+1)"}
 
 
@@ -126,10 +128,10 @@ def _jl(v):
     return ["nan" if x != x else x for x in v]
 
 
-def check_track(variant, pts, times, order, ctx):
+def check_track(variant, pts, times, order, ctx, case=None):
     pts = [tuple(p) for p in pts]
     n = len(pts)
-    case = {"variant": variant, "pts": [list(p) for p in pts], "times": list(times), "order": order}
+    case = case or {"variant": variant, "pts": [list(p) for p in pts], "times": list(times), "order": order}
     expS, expV = reference(variant, pts, times)
     # ---- obligations / non-triviality -------------------------------------------------
     if times[0] == times[1]:
@@ -225,7 +227,36 @@ def check_track(variant, pts, times, order, ctx):
     ctx.outcome((n, tuple(v != v for v in seenV), tuple(seenS[i] == seenS[i - 1] for i in range(1, n))))
 
 
+# ---- long tracks: a few hundred fixes (sizes around 2^8, where small-integer identities stop holding) ----------------
+LONG_N = {"quick": [40, 257, 258, 300], "thorough": [40, 257, 258, 300, 1025, 2000]}
+LONG_STRIDE = [1, 2, 3]                  # the track cycles through the lattice, skipping stride-1 points
+LONG_TIMES = ["strict", "pairs", "tail-equal", "head-equal"]
+
+
+def long_track(variant, n, stride, tpat):
+    lat = _lattice(variant, False)
+    pts = [lat[(i * stride) % len(lat)] for i in range(n)]
+    if tpat == "strict":
+        times = list(range(n))
+    elif tpat == "pairs":
+        times = [i // 2 for i in range(n)]
+    elif tpat == "tail-equal":
+        times = list(range(n - 1)) + [n - 2]
+    else:
+        times = [0] + list(range(n - 1))
+    return pts, times
+
+
+def check_long(variant, n, stride, tpat, order, ctx):
+    pts, times = long_track(variant, n, stride, tpat)
+    ctx.oblige("long_track")
+    check_track(variant, pts, times, order, ctx,
+                case={"variant": variant, "long": n, "stride": stride, "tpat": tpat, "order": order})
+
+
 def replay(case, ctx):
+    if "long" in case:
+        return check_long(case["variant"], case["long"], case["stride"], case["tpat"], case["order"], ctx)
     check_track(case["variant"], case["pts"], case["times"], case["order"], ctx)
 
 
@@ -251,11 +282,20 @@ def plan(tier, variant):
         for first in range(L):
             for second in (range(L) if n >= 4 else [None]):
                 sh.append({"variant": variant, "n": n, "extended": True, "first": first, "second": second})
+    for n in LONG_N[tier]:
+        sh.append({"variant": variant, "kind": "long", "n": n})
     return sh
 
 
 def run_shard(shard, ctx):
     v, n = shard["variant"], shard["n"]
+    if shard.get("kind") == "long":
+        for stride in LONG_STRIDE:
+            for tpat in LONG_TIMES:
+                for order in sorted(ORDERS):
+                    check_long(v, n, stride, tpat, order, ctx)
+        ctx.sample({"long_track": n, "strides": LONG_STRIDE, "timestamp_patterns": LONG_TIMES, "orders": sorted(ORDERS)})
+        return
     lat = _lattice(v, shard["extended"])
     base = set(LATTICE)
     fixed = [lat[shard["first"]]] + ([lat[shard["second"]]] if shard["second"] is not None else [])
